@@ -504,10 +504,21 @@ POLY = {3: [(0, 1, 1), (1, 0, 1), (1, 1, 0)], 4: [(0, 1, 1, 0), (1, 0, 1, 1), (1
 
 
 def poly_space(tier):
+    T = tier == "thorough"
     for ploidy in (3, 4):
         for reads in itertools.product(range(ploidy), repeat=2):
             for span in ((0, 2), (0, 1), (1, 2)):
                 yield {"poly": ploidy, "reads": list(reads), "span": list(span)}
+    # every heterozygous genotype per variant (haplotypes may coincide over the span: ties between the best two
+    # with a third one behind), one read per haplotype
+    for ploidy in (3, 4):
+        gts = [g for g in itertools.product((0, 1), repeat=ploidy) if 0 < sum(g) < ploidy]
+        mats = list(itertools.product(gts, repeat=3))
+        if ploidy == 4:
+            mats = mats[:: 1 if T else 7]
+        for m in mats:
+            for span in ((0, 2), (0, 1)) + (((1, 2),) if T else ()):
+                yield {"poly": ploidy, "gts": [list(g) for g in m], "reads": list(range(ploidy)), "span": list(span)}
 
 
 def judge_poly(inst):
@@ -523,10 +534,13 @@ def judge_poly(inst):
     seq = synth.make_reference(seed, 260)
     variants = [synth.make_variant(seq, p, "SNV") for p in POS[:3]]
     haps = POLY[ploidy]  # haps[variant] = alleles per haplotype
+    if "gts" in inst:
+        hap_alleles = [[inst["gts"][vi][j] for vi in range(3)] for j in range(ploidy)]
+    else:
+        hap_alleles = [[(haps[vi][j] if ploidy == 3 else haps[j][vi]) for vi in range(3)] for j in range(ploidy)]
     vcf = synth.VcfText(["S1"], contigs=[("chrA", len(seq))], formats=["GT", "PS"])
     for vi, v in enumerate(variants):
-        vcf.add("chrA", v.pos, v.ref, v.alts, [{"GT": "|".join(str(haps[vi][j] if ploidy == 3 else haps[j][vi]) for j in range(ploidy)), "PS": "61"}], fmt=["GT", "PS"])
-    hap_alleles = [[(haps[vi][j] if ploidy == 3 else haps[j][vi]) for vi in range(3)] for j in range(ploidy)]
+        vcf.add("chrA", v.pos, v.ref, v.alts, [{"GT": "|".join(str(hap_alleles[j][vi]) for j in range(ploidy)), "PS": "61"}], fmt=["GT", "PS"])
     vcf_path = vcf.write(os.path.join(d, "p.vcf.gz"))
     fasta = synth.write_fasta(os.path.join(d, "ref.fa"), [("chrA", seq)])
     a_, b_ = inst["span"]
